@@ -140,7 +140,7 @@ proof fn pop_preserves_I(s: Seq<u8>, old: Rv, delivered: Seq<u8>, watermark: int
             assert(old.recv.dom().contains(old.c.start + last));
         }
         assert(d2 =~= s.subrange(0, new.c.start)) by {
-            assert forall|i: int| 0 <= i < d2.len() implies d2[i] == s.subrange(0, new.c.start)[i] by {
+            assert forall|i: int| 0 <= i < d2.len() implies #[trigger] d2[i] == s.subrange(0, new.c.start)[i] by {
                 if i >= delivered.len() {
                     let j = i - delivered.len();
                     assert(c[j] == old.recv[old.c.start + j]);
@@ -151,6 +151,7 @@ proof fn pop_preserves_I(s: Seq<u8>, old: Rv, delivered: Seq<u8>, watermark: int
         // cur_inv(new.c) and follows from the Reassembler invariant asserted by layer F (start <= max_recv)
         assert(new.c.start <= new.c.max_recv) by {
             let last = c.len() - 1;
+            assert(c[last] == old.recv[old.c.start + last]);
             assert(old.recv.dom().contains(old.c.start + last));
         }
     }
